@@ -296,8 +296,9 @@ impl AggregateUDFImpl for BitwiseOperation {
         }
     }
 
-    fn groups_accumulator_supported(&self, _args: AccumulatorArgs) -> bool {
-        true
+    fn groups_accumulator_supported(&self, args: AccumulatorArgs) -> bool {
+        // bit_xor(DISTINCT ..) needs the distinct accumulator (and its List state)
+        !(self.operation == BitwiseOperationType::Xor && args.is_distinct)
     }
 
     fn create_groups_accumulator(
